@@ -39,6 +39,27 @@ type probeConn struct {
 	spec  *plan.ClientSpec
 	mu    sync.Mutex
 	count int
+	kept  []keptReq
+	recv  Receivers
+}
+
+// keptReq is a request body a handler of this connection was given earlier and still
+// holds (multi-step handlers keep the first request of an exchange).
+type keptReq struct {
+	idx      int
+	ref, was []byte
+}
+
+// recheck reports every retained request body that no longer reads as it did when
+// the handler received it.
+func (pc *probeConn) recheck(now int) {
+	for i := range pc.kept {
+		k := &pc.kept[i]
+		if k.ref != nil && !bytes.Equal(k.ref, k.was) {
+			pc.w.Rec(world.Ev{Actor: "conn", Kind: "retained-body-changed", Conn: pc.conn, A: int64(k.idx), B: int64(now)})
+			k.ref = nil
+		}
+	}
 }
 
 // NewProbeProvider builds the provider for the plan's clients; connection ids are
@@ -136,10 +157,20 @@ func (h *probeHandler) Handle(resp tq.Response, req tq.Request) {
 			} else {
 				d := FromLib(v)
 				inv.Decoded = &d
+				if why := pc.recv.Body(st.Decode, req.Body, d); why != "" {
+					pc.w.Rec(world.Ev{Actor: "conn", Kind: "receiver-reuse-differs", Conn: pc.conn, A: int64(idx), S: why})
+				}
 			}
 		}
 	}
+	if why := pc.recv.Header(req.Header); why != "" {
+		pc.w.Rec(world.Ev{Actor: "conn", Kind: "receiver-reuse-differs", Conn: pc.conn, A: int64(idx), S: why})
+	}
 	entryBody := append([]byte(nil), req.Body...)
+	pc.mu.Lock()
+	pc.recheck(idx)
+	pc.kept = append(pc.kept, keptReq{idx: idx, ref: req.Body, was: entryBody})
+	pc.mu.Unlock()
 	pc.w.Rec(world.Ev{Actor: "conn", Kind: "invoke", Conn: pc.conn, A: int64(idx), B: int64(h.id), S: J(inv), Bytes: entryBody})
 	defer func() {
 		if r := recover(); r != nil {
